@@ -119,11 +119,11 @@ func (r *Run) timeBefore(a, b timeVal) *Term {
 }
 
 type timerState struct {
-	ev      *envEvent
-	ch      *channel
-	f       value
-	ticker  bool
-	fires   int
+	ev     *envEvent
+	ch     *channel
+	f      value
+	ticker bool
+	fires  int
 }
 
 func registerTimeIntrinsics(e *Engine) {
